@@ -196,6 +196,16 @@ class CG:
         self._emitting = set()
         self.gnames = {}; self._used_gn = set()
         self.out_types = []
+        # nostd::shared_ptr<X>::PlacementBuffer = { [N x i8] } always holds a shared_ptr_wrapper (placement new):
+        # declare the memory with that type (+ padding) so CBMC keeps the vptr / pointers as typed fields
+        # instead of byte arrays. Same size and layout (checked with _Static_assert in the output).
+        self.retyped = {}
+        for name, ent in mod.structs.items():
+            if name.endswith('::PlacementBuffer') and ent[0] is not None and len(ent[0]) == 1 and ent[0][0][0] == 'array' \
+               and ent[0][0][2] == ('int', 8) and 'nostd::shared_ptr<' in name:
+                w = name.replace('struct.', 'class.', 1)[:-len('::PlacementBuffer')] + '::shared_ptr_wrapper'
+                if w in mod.structs and mod.structs[w][0] is not None:
+                    self.retyped[name] = (('struct', w), ent[0][0][1])
     def gname(self, g):
         g = g.strip('"') if not g.startswith('@') else g[1:].strip('"')
         if g in self.gnames: return self.gnames[g]
@@ -252,6 +262,10 @@ class CG:
         fields, packed = ent
         self.out_types.append(('fwd', cid))
         self._pending_defs = getattr(self, '_pending_defs', [])
+        if name in self.retyped:
+            wt, n = self.retyped[name]
+            self._pending_defs.append((cid, ('RETYPED', wt, n), packed))
+            return
         self._pending_defs.append((cid, fields, packed))
     def lstruct_name(self, t):
         if t not in self.lstruct_ids:
@@ -288,6 +302,8 @@ class CG:
             cid, fields, packed = self._pending_defs.pop()
             if fields and fields[0] == 'ARRAY':
                 el = self.ctype(fields[2]); done_fields[cid] = ('ARRAY', fields[1], el, fields[2])
+            elif fields and fields[0] == 'RETYPED':
+                done_fields[cid] = ('RETYPED', self.ctype(fields[1]), fields[1], fields[2])
             else:
                 done_fields[cid] = ('STRUCT', [(self.ctype(f), f) for f in fields], packed)
         self._all_defs = getattr(self, '_all_defs', {})
@@ -314,6 +330,8 @@ class CG:
             if d is None: return
             if d[0] == 'ARRAY':
                 for dep in self.byvalue_deps(d[3]): visit(dep, stack + (cid,))
+            elif d[0] == 'RETYPED':
+                for dep in self.byvalue_deps(d[2]): visit(dep, stack + (cid,))
             else:
                 for _, ft in d[1]:
                     for dep in self.byvalue_deps(ft): visit(dep, stack + (cid,))
@@ -324,6 +342,9 @@ class CG:
             if d[0] == 'ARRAY':
                 n = d[1]
                 lines.append('%s { %s a[%d]; };' % (cid, d[2], n if n > 0 else 0))
+            elif d[0] == 'RETYPED':
+                lines.append('%s { %s f0; uint8_t pad[%d - sizeof(%s)]; }; _Static_assert(sizeof(%s) == %d, "retyped placement buffer size");'
+                             % (cid, d[1], d[3], d[1], cid, d[3]))
             else:
                 fs = ' '.join('%s f%d;' % (ct, i) for i, (ct, _) in enumerate(d[1]))
                 lines.append('%s { %s }%s;' % (cid, fs, ' __attribute__((packed))' if d[2] else ''))
@@ -730,6 +751,33 @@ class Gen:
         i0 = idx[0][0]
         cbt = cg.ctype(PTR(bt))
         if bt[0] == 'func' or bt[0] == 'void': raise IRError('gep over function/void')
+        if i0 not in ('0', '0ULL') and len(idx) > 1:
+            # one GEP = one address computation: do it as a single byte offset so that no out-of-bounds
+            # intermediate pointer is formed (e.g. array-cookie access  gep T* p, -1, 1)
+            sa = self.size_align(bt)
+            if sa is None: raise IRError('gep over unsized type')
+            terms = ['(%s) * %dLL' % (self.sidx(idx[0]), sa[0])]
+            for ie, it in idx[1:]:
+                k = cur_t[0]
+                if k in ('struct', 'lstruct'):
+                    fields, packed = (self.mod.structs[cur_t[1]] if k == 'struct' else (cur_t[1], cur_t[2]))
+                    fi = self.const_int(ie)
+                    off = 0
+                    for j, f in enumerate(fields):
+                        fsa = self.size_align(f)
+                        if fsa is None: raise IRError('gep over unsized field')
+                        fa = 1 if packed else fsa[1]
+                        off = (off + fa - 1) // fa * fa
+                        if j == fi: break
+                        off += fsa[0]
+                    terms.append('%dLL' % off); cur_t = fields[fi]
+                elif k == 'array':
+                    esa = self.size_align(cur_t[2])
+                    terms.append('(%s) * %dLL' % (self.sidx((ie, it)), esa[0])); cur_t = cur_t[2]
+                else:
+                    raise IRError('gep into %r' % (cur_t,))
+            e = '((%s)(((uint8_t*)%s) + (%s)))' % (cg.ctype(PTR(cur_t)), base, ' + '.join(terms))
+            return e, cur_t
         if i0 in ('0', '0ULL'):
             e = base
         else:
@@ -739,7 +787,11 @@ class Gen:
             if k == 'struct':
                 ent = self.mod.structs[cur_t[1]]
                 fi = self.const_int(ie)
-                e = '(&(%s)->f%d)' % (e, fi); cur_t = ent[0][fi]
+                if cur_t[1] in cg.retyped:
+                    cur_t = ent[0][fi]
+                    e = '((%s)(%s))' % (cg.ctype(PTR(cur_t)), e)
+                else:
+                    e = '(&(%s)->f%d)' % (e, fi); cur_t = ent[0][fi]
             elif k == 'lstruct':
                 fi = self.const_int(ie)
                 e = '(&(%s)->f%d)' % (e, fi); cur_t = cur_t[1][fi]
@@ -1062,6 +1114,7 @@ class Gen:
         raise IRError('unsupported instruction ' + op)
 
     def agg_field(self, e, t, i):
+        if t[0] == 'struct' and t[1] in self.cg.retyped: raise IRError('extract/insertvalue on retyped placement buffer')
         if t[0] == 'struct': return '%s.f%d' % (e, i), self.mod.structs[t[1]][0][i]
         if t[0] == 'lstruct': return '%s.f%d' % (e, i), t[1][i]
         if t[0] == 'array': return '%s.a[%d]' % (e, i), t[2]
@@ -1421,7 +1474,9 @@ class Gen:
                     fn = arr[idx]
                     fdef = self.mod.funcs.get(fn)
                     if fdef and self.sig_compat(fdef, fty) and fn not in cands and self.this_compat(fdef, fty): cands.append(fn)
-            if cands: return cands
+            # vtables are only referenced by constructors: no live vtable with a compatible entry means no object
+            # of such a class can exist on any path from the entry point -> empty set (guarded by the check)
+            return cands
         for fn in sorted(self.address_taken()):
             fdef = self.mod.funcs.get(fn)
             if fdef and not fn.startswith('llvm.') and self.sig_compat(fdef, fty): cands.append(fn)
